@@ -288,7 +288,7 @@ func (db *MultiBucketBackend) DeleteBucket(name string) (rerr error) {
 	}
 
 	// FIXME(bw): the error handling logic here is a little janky:
-	if err := db.bucketFs.RemoveAll(name); os.IsNotExist(err) {
+	if err := removeTree(db.bucketFs, name); os.IsNotExist(err) {
 		rerr = gofakes3.BucketNotFound(name)
 	} else if err != nil {
 		return err
@@ -305,21 +305,8 @@ func (db *MultiBucketBackend) ForceDeleteBucket(name string) error {
 	db.lock.Lock()
 	defer db.lock.Unlock()
 
-	// Delete all objects in the bucket
-	entries, err := afero.ReadDir(db.bucketFs, name)
-	if err != nil {
-		return err
-	}
-
-	for _, entry := range entries {
-		fullPath := path.Join(name, entry.Name())
-		if err := db.bucketFs.RemoveAll(fullPath); err != nil {
-			return err
-		}
-	}
-
-	// Delete the bucket itself
-	if err := db.bucketFs.RemoveAll(name); err != nil {
+	// Delete all objects in the bucket, and the bucket itself
+	if err := removeTree(db.bucketFs, name); err != nil {
 		return err
 	}
 
